@@ -736,13 +736,14 @@ class ItemGrader(AbstractGrader):
             output = json.dumps(inferred)  # How to avoid unicode 'u' showing up!
             self.log("Expect value inferred to be {}".format(output))
 
-            # Validate the answers
-            self.config['answers'] = self.schema_answers(inferred)
+            # Validate the answers, including post-schema answer validation
+            answers = self.post_schema_ans_val(self.schema_answers(inferred))
+
+            # Store the answers only once they are fully validated, so that a bad
+            # expect value cannot leave half-validated answers behind.
             # Note that this answer is now stored for future calls, but
             # will be overridden if a new expect value is provided.
-
-            # Perform post-schema answer validation
-            self.config['answers'] = self.post_schema_ans_val(self.config['answers'])
+            self.config['answers'] = answers
 
             # Mark that we are using inferred answers
             self.inferring_answers = True
